@@ -33,6 +33,7 @@ def agrees (expected actual : String) : Bool :=
 
 def evalRecipe (st : DState) (toks : List String) (impl : String) : Eval :=
   match toks with
+  | [kind, name, "doc"] => evalDoc st kind name impl
   | "bits" :: rest => evalBits st rest
   | "raw" :: name :: rest => evalRaw st name rest
   | "iv" :: name :: rest => evalIv st name rest
